@@ -15,7 +15,6 @@ limitations under the License.
 ================================================================================
 */
 
-#include <exception>    // std::rethrow_exception, std::current_exception
 #include <memory>       // std::make_shared
 #include <sstream>      // std::ostringstream
 #include <string>       // std::string
@@ -67,16 +66,12 @@ template PyTreeTypeRegistry* PyTreeTypeRegistry::Singleton<NONE_IS_NODE>();
 template PyTreeTypeRegistry* PyTreeTypeRegistry::Singleton<NONE_IS_LEAF>();
 
 template <bool NoneIsLeaf>
-/*static*/ void PyTreeTypeRegistry::RegisterImpl(const py::object& cls,
+/*static*/ bool PyTreeTypeRegistry::RegisterImpl(const py::object& cls,
                                                  const py::function& flatten_func,
                                                  const py::function& unflatten_func,
                                                  const py::object& path_entry_type,
                                                  const std::string& registry_namespace) {
-    if (sm_builtins_types.find(cls) != sm_builtins_types.end()) [[unlikely]] {
-        throw py::value_error("PyTree type " + PyRepr(cls) +
-                              " is a built-in type and cannot be re-registered.");
-    }
-
+    // NOTE: this function is called with `sm_mutex` held, it must not run any Python code.
     PyTreeTypeRegistry* const registry = Singleton<NoneIsLeaf>();
     auto registration = std::make_shared<std::remove_const_t<RegistrationPtr::element_type>>();
     registration->kind = PyTreeKind::Custom;
@@ -85,70 +80,11 @@ template <bool NoneIsLeaf>
     registration->unflatten_func = py::reinterpret_borrow<py::function>(unflatten_func);
     registration->path_entry_type = py::reinterpret_borrow<py::object>(path_entry_type);
     if (registry_namespace.empty()) [[unlikely]] {
-        if (!registry->m_registrations.emplace(cls, std::move(registration)).second) [[unlikely]] {
-            throw py::value_error("PyTree type " + PyRepr(cls) +
-                                  " is already registered in the global namespace.");
-        }
-        int warn_result = 0;
-        if (IsStructSequenceClass(cls)) [[unlikely]] {
-            warn_result = PyErr_WarnEx(PyExc_UserWarning,
-                                       ("PyTree type " + PyRepr(cls) +
-                                        " is a class of `PyStructSequence`, "
-                                        "which is already registered in the global namespace. "
-                                        "Override it with custom flatten/unflatten functions.")
-                                           .c_str(),
-                                       /*stack_level=*/2);
-        } else if (IsNamedTupleClass(cls)) [[unlikely]] {
-            warn_result = PyErr_WarnEx(PyExc_UserWarning,
-                                       ("PyTree type " + PyRepr(cls) +
-                                        " is a subclass of `collections.namedtuple`, "
-                                        "which is already registered in the global namespace. "
-                                        "Override it with custom flatten/unflatten functions.")
-                                           .c_str(),
-                                       /*stack_level=*/2);
-        }
-        if (warn_result < 0) [[unlikely]] {
-            // The warning was turned into an exception: undo the registration.
-            registry->m_registrations.erase(cls);
-            throw py::error_already_set();
-        }
-    } else [[likely]] {
-        if (!registry->m_named_registrations
-                 .emplace(std::make_pair(registry_namespace, cls), std::move(registration))
-                 .second) [[unlikely]] {
-            std::ostringstream oss{};
-            oss << "PyTree type " << PyRepr(cls) << " is already registered in namespace "
-                << PyRepr(registry_namespace) << ".";
-            throw py::value_error(oss.str());
-        }
-        int warn_result = 0;
-        if (IsStructSequenceClass(cls)) [[unlikely]] {
-            std::ostringstream oss{};
-            oss << "PyTree type " << PyRepr(cls)
-                << " is a class of `PyStructSequence`, "
-                   "which is already registered in the global namespace. "
-                   "Override it with custom flatten/unflatten functions in namespace "
-                << PyRepr(registry_namespace) << ".";
-            warn_result = PyErr_WarnEx(PyExc_UserWarning,
-                                       oss.str().c_str(),
-                                       /*stack_level=*/2);
-        } else if (IsNamedTupleClass(cls)) [[unlikely]] {
-            std::ostringstream oss{};
-            oss << "PyTree type " << PyRepr(cls)
-                << " is a subclass of `collections.namedtuple`, "
-                   "which is already registered in the global namespace. "
-                   "Override it with custom flatten/unflatten functions in namespace "
-                << PyRepr(registry_namespace) << ".";
-            warn_result = PyErr_WarnEx(PyExc_UserWarning,
-                                       oss.str().c_str(),
-                                       /*stack_level=*/2);
-        }
-        if (warn_result < 0) [[unlikely]] {
-            // The warning was turned into an exception: undo the registration.
-            registry->m_named_registrations.erase(std::make_pair(registry_namespace, cls));
-            throw py::error_already_set();
-        }
+        return registry->m_registrations.emplace(cls, std::move(registration)).second;
     }
+    return registry->m_named_registrations
+        .emplace(std::make_pair(registry_namespace, cls), std::move(registration))
+        .second;
 }
 
 /*static*/ void PyTreeTypeRegistry::Register(const py::object& cls,
@@ -156,45 +92,139 @@ template <bool NoneIsLeaf>
                                              const py::function& unflatten_func,
                                              const py::object& path_entry_type,
                                              const std::string& registry_namespace) {
-    const scoped_write_lock_guard lock{sm_mutex};
+    // Everything that may run Python code (class predicates, `repr()`, warnings) is evaluated
+    // without holding `sm_mutex`: a thread that runs Python code may be suspended in favor of a
+    // thread that blocks on the mutex while holding the GIL, and Python code may re-enter the
+    // registry on the same thread.
+    const bool is_structseq_class = IsStructSequenceClass(cls);
+    const bool is_namedtuple_class = !is_structseq_class && IsNamedTupleClass(cls);
+    (void)Singleton<NONE_IS_NODE>();
+    (void)Singleton<NONE_IS_LEAF>();
 
-    RegisterImpl<NONE_IS_NODE>(cls,
-                               flatten_func,
-                               unflatten_func,
-                               path_entry_type,
-                               registry_namespace);
-    try {
-        RegisterImpl<NONE_IS_LEAF>(cls,
-                                   flatten_func,
-                                   unflatten_func,
-                                   path_entry_type,
-                                   registry_namespace);
-    } catch (...) {
-        // Keep the two registries in sync: undo the first registration.
-        (void)UnregisterImpl<NONE_IS_NODE>(cls, registry_namespace);
-        std::rethrow_exception(std::current_exception());
+    bool is_builtin_type = false;
+    bool is_registered = false;
+    {
+        const scoped_write_lock_guard lock{sm_mutex};
+        is_builtin_type = (sm_builtins_types.find(cls) != sm_builtins_types.end());
+        if (!is_builtin_type) [[likely]] {
+            if (RegisterImpl<NONE_IS_NODE>(cls,
+                                           flatten_func,
+                                           unflatten_func,
+                                           path_entry_type,
+                                           registry_namespace)) [[likely]] {
+                if (RegisterImpl<NONE_IS_LEAF>(cls,
+                                               flatten_func,
+                                               unflatten_func,
+                                               path_entry_type,
+                                               registry_namespace)) [[likely]] {
+                    is_registered = true;
+                    cls.inc_ref();
+                    flatten_func.inc_ref();
+                    unflatten_func.inc_ref();
+                    path_entry_type.inc_ref();
+                } else [[unlikely]] {
+                    // Keep the two registries in sync: undo the first registration.
+                    (void)UnregisterImpl<NONE_IS_NODE>(cls, registry_namespace);
+                }
+            }
+        }
     }
-    cls.inc_ref();
-    flatten_func.inc_ref();
-    unflatten_func.inc_ref();
-    path_entry_type.inc_ref();
+
+    if (is_builtin_type) [[unlikely]] {
+        throw py::value_error("PyTree type " + PyRepr(cls) +
+                              " is a built-in type and cannot be re-registered.");
+    }
+    if (!is_registered) [[unlikely]] {
+        if (registry_namespace.empty()) [[unlikely]] {
+            throw py::value_error("PyTree type " + PyRepr(cls) +
+                                  " is already registered in the global namespace.");
+        }
+        std::ostringstream oss{};
+        oss << "PyTree type " << PyRepr(cls) << " is already registered in namespace "
+            << PyRepr(registry_namespace) << ".";
+        throw py::value_error(oss.str());
+    }
+
+    if (is_structseq_class || is_namedtuple_class) [[unlikely]] {
+        std::ostringstream oss{};
+        oss << "PyTree type " << PyRepr(cls)
+            << (is_structseq_class ? " is a class of `PyStructSequence`, "
+                                   : " is a subclass of `collections.namedtuple`, ")
+            << "which is already registered in the global namespace. "
+               "Override it with custom flatten/unflatten functions";
+        if (!registry_namespace.empty()) [[likely]] {
+            oss << " in namespace " << PyRepr(registry_namespace);
+        }
+        oss << ".";
+        if (PyErr_WarnEx(PyExc_UserWarning, oss.str().c_str(), /*stack_level=*/2) < 0)
+            [[unlikely]] {
+            // The warning was turned into an exception: undo the registration.
+            {
+                const scoped_write_lock_guard lock{sm_mutex};
+                (void)UnregisterImpl<NONE_IS_NODE>(cls, registry_namespace);
+                (void)UnregisterImpl<NONE_IS_LEAF>(cls, registry_namespace);
+            }
+            cls.dec_ref();
+            flatten_func.dec_ref();
+            unflatten_func.dec_ref();
+            path_entry_type.dec_ref();
+            throw py::error_already_set();
+        }
+    }
 }
 
 template <bool NoneIsLeaf>
 /*static*/ PyTreeTypeRegistry::RegistrationPtr PyTreeTypeRegistry::UnregisterImpl(
     const py::object& cls,
     const std::string& registry_namespace) {
-    if (sm_builtins_types.find(cls) != sm_builtins_types.end()) [[unlikely]] {
-        throw py::value_error("PyTree type " + PyRepr(cls) +
-                              " is a built-in type and cannot be unregistered.");
-    }
-
+    // NOTE: this function is called with `sm_mutex` held, it must not run any Python code.
+    // Returns `nullptr` if the type is not registered.
     PyTreeTypeRegistry* const registry = Singleton<NoneIsLeaf>();
     if (registry_namespace.empty()) [[unlikely]] {
         const auto it = registry->m_registrations.find(cls);
         if (it == registry->m_registrations.end()) [[unlikely]] {
-            std::ostringstream oss{};
-            oss << "PyTree type " << PyRepr(cls) << " ";
+            return nullptr;
+        }
+        RegistrationPtr registration = it->second;
+        registry->m_registrations.erase(it);
+        return registration;
+    }
+    const auto named_it =
+        registry->m_named_registrations.find(std::make_pair(registry_namespace, cls));
+    if (named_it == registry->m_named_registrations.end()) [[unlikely]] {
+        return nullptr;
+    }
+    RegistrationPtr registration = named_it->second;
+    registry->m_named_registrations.erase(named_it);
+    return registration;
+}
+
+/*static*/ void PyTreeTypeRegistry::Unregister(const py::object& cls,
+                                               const std::string& registry_namespace) {
+    (void)Singleton<NONE_IS_NODE>();
+    (void)Singleton<NONE_IS_LEAF>();
+
+    bool is_builtin_type = false;
+    RegistrationPtr registration1{nullptr};
+    RegistrationPtr registration2{nullptr};
+    {
+        const scoped_write_lock_guard lock{sm_mutex};
+        is_builtin_type = (sm_builtins_types.find(cls) != sm_builtins_types.end());
+        if (!is_builtin_type) [[likely]] {
+            registration1 = UnregisterImpl<NONE_IS_NODE>(cls, registry_namespace);
+            registration2 = UnregisterImpl<NONE_IS_LEAF>(cls, registry_namespace);
+        }
+    }
+
+    // Error messages run Python code (`repr()`, class predicates): build them without the lock.
+    if (is_builtin_type) [[unlikely]] {
+        throw py::value_error("PyTree type " + PyRepr(cls) +
+                              " is a built-in type and cannot be unregistered.");
+    }
+    if (!registration1 && !registration2) [[unlikely]] {
+        std::ostringstream oss{};
+        oss << "PyTree type " << PyRepr(cls) << " ";
+        if (registry_namespace.empty()) [[unlikely]] {
             if (IsStructSequenceClass(cls)) [[unlikely]] {
                 oss << "is a class of `PyStructSequence`, "
                     << "which is not explicitly registered in the global namespace.";
@@ -204,17 +234,7 @@ template <bool NoneIsLeaf>
             } else [[likely]] {
                 oss << "is not registered in the global namespace.";
             }
-            throw py::value_error(oss.str());
-        }
-        RegistrationPtr registration = it->second;
-        registry->m_registrations.erase(it);
-        return registration;
-    } else [[likely]] {
-        const auto named_it =
-            registry->m_named_registrations.find(std::make_pair(registry_namespace, cls));
-        if (named_it == registry->m_named_registrations.end()) [[unlikely]] {
-            std::ostringstream oss{};
-            oss << "PyTree type " << PyRepr(cls) << " ";
+        } else [[likely]] {
             if (IsStructSequenceClass(cls)) [[unlikely]] {
                 oss << "is a class of `PyStructSequence`, "
                     << "which is not explicitly registered ";
@@ -225,20 +245,10 @@ template <bool NoneIsLeaf>
                 oss << "is not registered ";
             }
             oss << "in namespace " << PyRepr(registry_namespace) << ".";
-            throw py::value_error(oss.str());
         }
-        RegistrationPtr registration = named_it->second;
-        registry->m_named_registrations.erase(named_it);
-        return registration;
+        throw py::value_error(oss.str());
     }
-}
-
-/*static*/ void PyTreeTypeRegistry::Unregister(const py::object& cls,
-                                               const std::string& registry_namespace) {
-    const scoped_write_lock_guard lock{sm_mutex};
-
-    const auto registration1 = UnregisterImpl<NONE_IS_NODE>(cls, registry_namespace);
-    const auto registration2 = UnregisterImpl<NONE_IS_LEAF>(cls, registry_namespace);
+    EXPECT_TRUE(registration1 && registration2, "The registries are out of sync.");
     EXPECT_TRUE(registration1->type.is(registration2->type));
     EXPECT_TRUE(registration1->flatten_func.is(registration2->flatten_func));
     EXPECT_TRUE(registration1->unflatten_func.is(registration2->unflatten_func));
@@ -253,9 +263,10 @@ template <bool NoneIsLeaf>
 /*static*/ PyTreeTypeRegistry::RegistrationPtr PyTreeTypeRegistry::Lookup(
     const py::object& cls,
     const std::string& registry_namespace) {
-    const scoped_read_lock_guard lock{sm_mutex};
-
+    // NOTE: the first call initializes the singleton, which runs Python code (imports).
     PyTreeTypeRegistry* const registry = Singleton<NoneIsLeaf>();
+
+    const scoped_read_lock_guard lock{sm_mutex};
     if (!registry_namespace.empty()) [[unlikely]] {
         const auto named_it =
             registry->m_named_registrations.find(std::make_pair(registry_namespace, cls));
